@@ -195,7 +195,12 @@ fn write_chunk(input: &[u8], input_used: &mut usize, w: &mut Writer, max_chunk: 
     // 5 is the smallest possible overhead
     let available = w.available().saturating_sub(5);
 
-    let to_write = input.len().min(max_chunk).min(available);
+    let mut to_write = input.len().min(max_chunk).min(available);
+
+    // The chunk length in hex can be more than one digit. Shrink until it fits.
+    while to_write > 0 && to_write + hex_len(to_write) + 4 > w.available() {
+        to_write -= 1;
+    }
 
     if to_write == 0 {
         // A zero length chunk is the end of the body. Never emit that for data.
@@ -219,6 +224,15 @@ fn write_chunk(input: &[u8], input_used: &mut usize, w: &mut Writer, max_chunk: 
 
     // write another chunk?
     success && input.len() > to_write
+}
+
+fn hex_len(mut n: usize) -> usize {
+    let mut len = 1;
+    while n >= 16 {
+        n /= 16;
+        len += 1;
+    }
+    len
 }
 
 #[derive(Clone, Copy, PartialEq, Eq)]
